@@ -10,6 +10,8 @@ import (
 	"strconv"
 	"strings"
 	"sync"
+	"sync/atomic"
+	"time"
 
 	"verif/core"
 
@@ -73,6 +75,16 @@ var allOps = []string{"exec", "test", "match", "matchAll", "replaceStr", "replac
 // env is one worker's set of runtimes.
 type env struct {
 	rts [3]*jsrt
+	cur atomic.Pointer[inFlight] // the JS call in progress (read by the hang watchdog)
+}
+
+// inFlight describes the harness call a worker is executing.
+type inFlight struct {
+	rg      *ring
+	p, f    string
+	s       *subject
+	patch   int
+	started time.Time
 }
 
 type jsrt struct {
@@ -193,7 +205,51 @@ func hash64(s string) uint64 {
 }
 
 // evalPF runs one (pattern, flags) pair of a ring over all subjects. It returns whether any subject matched.
-func evalPF(r *core.Run, e *env, rg *ring, p, f string) (matched bool) {
+// reporter is the part of *core.Run that one evaluation needs (also implemented by the collector used to
+// re-confirm a failing case on fresh state).
+type reporter interface {
+	Violation(sig, what string, c interface{})
+	IsKnown(sig string) bool
+	Eval(n int64)
+	Outcome(key string)
+	OutcomeH(h uint64)
+	Expired() bool
+}
+
+type collector struct{ sigs map[string]int }
+
+func (c *collector) Violation(sig, what string, _ interface{}) { c.sigs[sig]++ }
+func (c *collector) IsKnown(string) bool                       { return true }
+func (c *collector) Eval(int64)                                {}
+func (c *collector) Outcome(string)                            {}
+func (c *collector) OutcomeH(uint64)                           {}
+func (c *collector) Expired() bool                             { return false }
+
+var confirmed sync.Map // signature -> bool (reproduced 5x on fresh runtimes)
+
+// confirm re-runs one failing (pattern, flags, subject) evaluation five times on fresh runtimes and reports
+// whether the same signature is produced every time.
+func confirm(rg *ring, p, f string, s *subject, sig string) bool {
+	if v, ok := confirmed.Load(sig); ok {
+		return v.(bool)
+	}
+	one := *rg
+	one.patterns, one.flags = []string{p}, []string{f}
+	one.subjects = nil
+	if s != nil {
+		one.subjects = []subject{*s}
+	}
+	ok := true
+	for i := 0; i < 5 && ok; i++ {
+		c := &collector{sigs: map[string]int{}}
+		evalPF(c, &env{}, &one, p, f)
+		ok = c.sigs[sig] > 0
+	}
+	confirmed.Store(sig, ok)
+	return ok
+}
+
+func evalPF(r reporter, e *env, rg *ring, p, f string) (matched bool) {
 	report := func(patch int, s *subject, b *bad, sig, what string) {
 		if dumpFile != nil {
 			dumpMismatch(sig, what)
@@ -201,6 +257,9 @@ func evalPF(r *core.Run, e *env, rg *ring, p, f string) (matched bool) {
 		c := Case{Ring: rg.name, Pattern: p, Flags: f, Patch: patch, Kinds: rg.kinds, Ops: rg.ops, WantB: rg.wantB, Starts: rg.starts, Invalid: rg.invalid, Detail: b}
 		if s != nil {
 			c.Subject, c.Shown = s.units, s.String()
+		}
+		if !r.IsKnown(sig) && !confirm(rg, p, f, s, sig) {
+			sig, what = "flaky|"+sig, "NOT reproduced 5x on fresh runtimes: "+what
 		}
 		r.Violation(sig, what, c)
 	}
@@ -257,7 +316,9 @@ func evalPF(r *core.Run, e *env, rg *ring, p, f string) (matched bool) {
 		var out0 goja.Value
 		for _, patch := range rg.patches {
 			t := e.rt(patch)
+			e.cur.Store(&inFlight{rg: rg, p: p, f: f, s: s, patch: patch, started: time.Now()})
 			out, err := t.run(mades[patch], *s, rg.ops, rg.starts, -1)
+			e.cur.Store(nil)
 			if err != nil {
 				op, k, vn := "?", -1, "?"
 				if ls := strings.Split(strOrEmpty(t.r.Get("lastStep")), ","); len(ls) == 3 {
@@ -281,16 +342,15 @@ func evalPF(r *core.Run, e *env, rg *ring, p, f string) (matched bool) {
 				continue
 			}
 			str := out.String()
-			if strings.HasPrefix(str, "\x01") {
+			if bj := strOrEmpty(t.r.Get("lastBads")); bj != "" {
 				var bads []bad
-				if err := json.Unmarshal([]byte(str[1:]), &bads); err != nil {
+				if err := json.Unmarshal([]byte(bj), &bads); err != nil {
 					panic("c20: bad harness output: " + err.Error())
 				}
 				for i := range bads {
 					sig, what := classify(p, f, s, patch, &bads[i])
 					report(patch, s, &bads[i], sig, what)
 				}
-				continue
 			}
 			if patch == 0 {
 				out0 = out
@@ -302,10 +362,34 @@ func evalPF(r *core.Run, e *env, rg *ring, p, f string) (matched bool) {
 					matched = true
 				}
 				r.OutcomeH(hash64(first))
-			} else if out0 != nil && !out0.StrictEquals(out) {
-				b := &bad{Kind: "diff-runtime", Op: firstDiffOp(out0.String(), str, rg.ops), V1: "pristine", V2: fmt.Sprintf("patched%d", patch), D1: out0.String(), D2: str}
-				sig, what := classify(p, f, s, patch, b)
-				report(patch, s, b, sig, what)
+			} else if out0 != nil {
+				// the patched-prototype runtimes run start positions 0 and 1 only: their dump must be a prefix of the pristine one
+				u0, u1 := goja.VerifUnits(out0), goja.VerifUnits(out)
+				same := len(u1) <= len(u0)
+				for i := 0; same && i < len(u1); i++ {
+					same = u0[i] == u1[i]
+				}
+				if !same {
+					// locate the first differing (start, operation) segment and classify it like an in-runtime difference
+					s0, s1 := strings.Split(out0.String(), "|"), strings.Split(str, "|")
+					k, op, d0, d1 := -1, "?", "", ""
+					for i := 0; i < len(s1); i++ {
+						if i >= len(s0) || s0[i] != s1[i] {
+							k, op, d1 = i/len(rg.ops), rg.ops[i%len(rg.ops)], s1[i]
+							if i < len(s0) {
+								d0 = s0[i]
+							}
+							break
+						}
+					}
+					v2 := "A/proto-patched"
+					if patch == 2 {
+						v2 = "A/symbols-patched"
+					}
+					b := &bad{Kind: "diff", Op: op, K: k, V1: "A/plain", V2: v2, D1: d0, D2: d1}
+					sig, what := classify(p, f, s, 0, b)
+					report(patch, s, b, sig, what)
+				}
 			}
 		}
 	}
@@ -329,17 +413,6 @@ func dumpMismatch(sig, what string) {
 	}
 }
 
-// firstDiffOp locates the operation of the first differing segment of two reference dumps.
-func firstDiffOp(a, b string, ops []string) string {
-	as, bs := strings.Split(a, "|"), strings.Split(b, "|")
-	for i := 0; i < len(as) && i < len(bs); i++ {
-		if as[i] != bs[i] {
-			return ops[i%len(ops)]
-		}
-	}
-	return "?"
-}
-
 func classifyErr(err error) string {
 	s := err.Error()
 	if len(s) > 80 {
@@ -360,8 +433,56 @@ var (
 )
 
 // atoms that matter for the path / lastIndex protocol rings: widths 0, 1 and 2 code units, surrogate halves, named group
-var pathPatterns = []string{"a", ".", "\U0001F600", `\uDE00`, "$", "a*", "(?<a>a)|b", `\W??`}
 var pathPatternsT = []string{"a", ".", "[^a]", "\U0001F600", `\uD83D`, `\uDE00`, "[^]", "^", "$", `\b`, `\B`, "a*", "(?<a>a)|b", `\W??`}
+
+// corpus: the minimal failing input of every listed finding (plus the inputs that caught the mutants during
+// development), evaluated before the rings so that every known signature is reached deterministically.
+type corpusCase struct {
+	p, f    string
+	subj    []uint16
+	paths   bool // true: all variants, runtime kinds, operations and start positions; false: A/B plain, engine operations, start 0
+	invalid bool
+}
+
+var corpus = []corpusCase{
+	{p: "a", f: "uu"}, // construct|flags|duplicate flag u accepted
+	{p: "(?<a>x)(?<a>y)", f: "", invalid: true},       // construct|invalid pattern accepted|duplicate group name
+	{p: "^*", f: "", invalid: true},                   // construct|invalid pattern accepted|quantified assertion
+	{p: `\b`, f: "", subj: []uint16{0xe9}},            // engine|\b
+	{p: `\W`, f: "i", subj: []uint16{0x17f}},          // engine|\w+i
+	{p: ".", f: "", subj: []uint16{0x2028}},           // engine|dot
+	{p: "(?<a>a)", f: "u", subj: []uint16{'a', 0xe9}}, // engine|named groups
+	{p: "a|[^a]", f: "g", subj: []uint16{'a'}},        // engine|negated class ...
+	{p: "a*[^a]", f: "g", subj: []uint16{'a', '\n'}},
+	{p: `\W+\B`, f: "g", subj: []uint16{0xd83d, 0xde00, 'a'}},       // engine|quantified atom followed by \b or \B
+	{p: ".\U0001F600", f: "g", subj: []uint16{'A', 0xd83d, 0xde00}}, // engine|surrogate literal
+	{p: "a*", f: "g", subj: []uint16{'a'}, paths: true},             // fast-path|global match/replace
+	{p: `\b`, f: "gy", subj: []uint16{'a'}, paths: true},            // fast-path|global+sticky
+	{p: "a", f: "y", subj: []uint16{0xe9, 'a'}, paths: true},        // fast-path|replace|re2+sticky
+	{p: ".", f: "u", subj: []uint16{'a', 0xe9}, paths: true},        // fast-path|replace|regexp2+u (limit)
+	{p: ".", f: "uy", subj: []uint16{'a', 0xe9, 'a'}, paths: true},
+	{p: "a*", f: "", subj: []uint16{'a', 'b'}, paths: true}, // fast-path|split
+	{p: "a", f: "", subj: []uint16{'a'}, paths: true},       // generic-path|test
+	{p: "$", f: "y", subj: []uint16{}, paths: true},         // panic|replace
+	{p: "\U0001F600", f: "gu", subj: []uint16{'a', 0xd83d, 0xde00, 0xd83d, 0xde00}, paths: true},
+	{p: "", f: "gu", subj: []uint16{0xd83d, 0xde00, 'a'}, paths: true},
+}
+
+func runCorpus(r *core.Run, envs []*env) bool {
+	ok, _ := parallelWatched(r, envs, int64(len(corpus)), 1, func(w int, lo, hi int64) {
+		for i := lo; i < hi; i++ {
+			c := corpus[i]
+			rg := &ring{name: "corpus", patterns: []string{c.p}, flags: []string{c.f}, subjects: []subject{{units: c.subj}},
+				ops: opsEngine, kinds: kindsPlain, patches: []int{0}, wantB: true, invalid: c.invalid}
+			if c.paths {
+				rg.ops, rg.kinds, rg.patches, rg.starts = allOps, kindsAll, []int{0, 1, 2}, true
+			}
+			evalPF(r, envs[w], rg, c.p, c.f)
+		}
+	})
+	r.Set("corpus_cases", len(corpus))
+	return ok
+}
 
 func buildRings(r *core.Run) []*ring {
 	ext1 := allPatterns(1, atomsExt)
@@ -386,13 +507,13 @@ func buildRings(r *core.Run) []*ring {
 		subjects: allSubjects(0, nil), ops: allOps, kinds: kindsPlain, patches: []int{0}, invalid: true})
 	if r.Quick() {
 		// R1a: paths and lastIndex protocol: variants and runtime kinds, every start position, every operation
-		rings = append(rings, &ring{name: "R1a-paths", patterns: pathPatterns, flags: flagSubsetsOf("guy"),
-			subjects: allSubjects(2, pathSymsQ), ops: allOps, kinds: kindsQuick, patches: []int{0, 1, 2}, wantB: true, starts: true})
+		rings = append(rings, &ring{name: "R1a-paths", patterns: pathPatternsT, flags: append(flagSubsetsOf("guy"), "gimsuy"),
+			subjects: allSubjects(2, pathSymsQ), ops: allOps, kinds: kindsAll, patches: []int{0, 1, 2}, wantB: true, starts: true})
 		// R1b: engine semantics. weight-1 patterns x all subsets of imsu x full subject alphabet
 		rings = append(rings, &ring{name: "R1b-engine-w1", patterns: ext1, flags: flagSubsetsOf("imsu"),
 			subjects: allSubjects(2, all), ops: opsEngine, kinds: kindsPlain, patches: []int{0}, wantB: true})
 		// R2: engine semantics, weight-2 patterns, global iteration
-		rings = append(rings, &ring{name: "R2-engine-w2", patterns: ext2, flags: []string{"g", "gi", "gu"},
+		rings = append(rings, &ring{name: "R2-engine-w2", patterns: ext2, flags: []string{"g", "gi", "gu", "gimsu"},
 			subjects: allSubjects(2, engSyms), ops: opsIter, kinds: kindsPlain, patches: []int{0}, wantB: true})
 		// R3: weight-3 patterns over the core alphabet
 		rings = append(rings, &ring{name: "R3-engine-w3", patterns: core3, flags: []string{"g", "gu"},
@@ -448,6 +569,12 @@ func run(r *core.Run) {
 		envs[i] = &env{}
 	}
 	complete := true
+	if sel := os.Getenv("C20_RINGS"); sel == "" || strings.Contains(","+sel+",", ",corpus,") {
+		if !runCorpus(r, envs) {
+			complete = false
+			rings = nil
+		}
+	}
 	var done []string
 	for _, rg := range rings {
 		nf := int64(len(rg.flags))
@@ -455,9 +582,9 @@ func run(r *core.Run) {
 		var nt, re2n, rx2n int64
 		type cnt struct{ nt, re2, rx2 int64 }
 		cnts := make([]cnt, r.Workers)
-		ok := r.Parallel(n, 8, func(w int, lo, hi int64) {
+		ok, hung := parallelWatched(r, envs, n, 8, func(w int, lo, hi int64) {
 			e := envs[w]
-			for i := lo; i < hi; i++ {
+			for i := lo; i < hi && !aborted.Load(); i++ {
 				p, f := rg.patterns[i/nf], rg.flags[i%nf]
 				matched := evalPF(r, e, rg, p, f)
 				re2 := predictRE2(p, f)
@@ -484,6 +611,9 @@ func run(r *core.Run) {
 		r.Add("pairs_A_on_re2", re2n)
 		r.Add("pairs_A_on_regexp2_only", rx2n)
 		r.Set("ring_"+rg.name, map[string]interface{}{"patterns": len(rg.patterns), "flag_strings": len(rg.flags), "subjects": len(rg.subjects), "ops": rg.ops, "variants": rg.kinds, "runtime_kinds": rg.patches, "all_starts": rg.starts, "completed": ok})
+		if hung {
+			r.Set("hang_detected", true)
+		}
 		if !ok {
 			complete = false
 			break
@@ -492,6 +622,69 @@ func run(r *core.Run) {
 	}
 	r.Set("bounds_completed", done)
 	r.Exhaustive(complete)
+}
+
+const hangLimit = 40 * time.Second
+
+var aborted atomic.Bool
+
+// parallelWatched is r.Parallel plus a watchdog: a harness call that does not return within hangLimit (the engine
+// loops natively, where no VM step hook can interrupt it) is reported as a violation, the other workers are told to
+// stop and the run ends (the stuck goroutine is abandoned; the process exits after the report is written).
+func parallelWatched(r *core.Run, envs []*env, n, chunk int64, fn func(worker int, lo, hi int64)) (complete, hung bool) {
+	var next atomic.Int64
+	var wg sync.WaitGroup
+	var cut atomic.Bool
+	for w := 0; w < r.Workers; w++ {
+		wg.Add(1)
+		go func(w int) {
+			defer wg.Done()
+			for !aborted.Load() {
+				lo := next.Add(chunk) - chunk
+				if lo >= n {
+					return
+				}
+				if r.Expired() {
+					cut.Store(true)
+					return
+				}
+				fn(w, lo, min(lo+chunk, n))
+			}
+		}(w)
+	}
+	done := make(chan struct{})
+	go func() { wg.Wait(); close(done) }()
+	tick := time.NewTicker(time.Second)
+	defer tick.Stop()
+	for {
+		select {
+		case <-done:
+			return !cut.Load() && !aborted.Load(), false
+		case <-tick.C:
+			for _, e := range envs {
+				c := e.cur.Load()
+				if c == nil || time.Since(c.started) < hangLimit {
+					continue
+				}
+				aborted.Store(true)
+				cs := Case{Ring: c.rg.name, Pattern: c.p, Flags: c.f, Patch: c.patch, Kinds: c.rg.kinds, Ops: c.rg.ops, WantB: c.rg.wantB, Starts: c.rg.starts,
+					Subject: c.s.units, Shown: c.s.String()}
+				step := "?"
+				func() {
+					defer func() { recover() }()
+					step = strOrEmpty(e.rts[c.patch].r.Get("lastStep")) // racy read of a runtime that is stuck in native code; best effort
+				}()
+				r.Violation("hang|"+strings.Join(patternFeatures(c.p), ",")+"|flags="+flagClass(c.f),
+					fmt.Sprintf("/%s/%s on \"%s\" (runtime kind %d): the operation suite does not return within %v (last step: %s)", c.p, c.f, c.s.String(), c.patch, hangLimit, step), cs)
+				// give the healthy workers a moment to leave their current case, then abandon the stuck one
+				select {
+				case <-done:
+				case <-time.After(5 * time.Second):
+				}
+				return false, true
+			}
+		}
+	}
 }
 
 func replay(r *core.Run, raw json.RawMessage) {
